@@ -71,6 +71,17 @@ class Hang(Exception):
     pass
 
 
+class _FalsyCallable:
+    def __init__(self, fn):
+        self.fn = fn
+
+    def __call__(self, n):
+        return self.fn(n)
+
+    def __len__(self):
+        return 0
+
+
 def _vt(signum, frame):
     raise Hang()
 
@@ -132,6 +143,10 @@ def _walk_cases(rng, start, all_subsets: bool, desc_root: str):
     for prune, filt in subsets():
         pf = (lambda n: by_id[id(n)] in prune)  # noqa
         ff = None if filt is None else (lambda n: by_id[id(n)] in filt)
+        if rng.random() < 0.3:
+            # callbacks given as falsy callable objects are callbacks all the same (only None means "no callback")
+            pf = _FalsyCallable(pf)
+            ff = None if ff is None else _FalsyCallable(ff)
         extra = [[A("prune")] + sorted(prune)]
         if filt is not None:
             extra.append([A("filter")] + sorted(filt))
